@@ -25,7 +25,7 @@ MANIFEST = dict(
          'walk_folder with a sound form (dictionary source, folded key compared with a folder-boundary prefix) lists exactly the surviving files inside the folder (empty folder = all), every listed name looks up to that file, no name twice; string-prefix, root-is-dot, case-sensitive, container-prefilter (VPK.fileinfos) and container-iteration forms are refuted by kernel-computed witnesses. '
          'FileSystemChain: c19_chain_every_form_spec - for every query string and every list of members of whatever backend kind (no premise on the prefixes) chain[q] / _get_file(q), the resolution of open_bin / open_str(q), q in chain / _file_exists(q) in every recognised sound shape and the bytes read from the handle are the specification function chain_spec (first member, in priority order, whose files contain subfolder/name up to case, slash kind and redundant segments); hence the backend kind of a member is unobservable through a chain (c19_chain_backend_kind_unobservable); chains that also contain directory backends answer like chain_spec on queries that are exact for those members (c19_chain_with_directory_members_spec, premise shown necessary); a _file_exists loop that re-assigns the joined name is refuted (c19_chain_exists_carried_name_refuted). Priority insertion first / plain insertion last (both add_sys branches translated); the de-duplicated walk lists each folded name once keeping the first member\'s entry, the dict-overwrite shape is refuted. '
          'Composition (c19_chain_walk_lookup_closed, c19_chain_walk_complete, c19_chain_walk_every_entry_spec, c19_chain_walk_lists_spec, c19_chain_iter_lists_spec): for members with empty or clean prefixes and an empty or clean folder, every (path, File) the de-duplicated walk lists is the specification\'s answer for path (it looks up in every form and reads the listed bytes), and every clean name the specification serves inside the folder is listed with that File; iter(chain) lists every clean name served. All of these are re-instantiated at the generated configuration on every run. '
-         'Round 4 - c19_property: for every configuration (three backend records, VPK content expressions and reader, the directory backend\'s operations and listed-name shape, add_sys guard and branch actions, _file_exists mode, de-duplication mode / key / relative-name mode) that passes the named recognisers, the three sentences of the property hold (backends_agree, walks_exact, chains_honour_priority); today\'s generated configuration passes (obligation property_hypotheses_hold_for_the_generated_configuration, instance theorem today_c19_property). add_sys: c19_chain_history_order / _mounts_all / _spec - after ANY sequence of add_sys calls (method always inserts, first for priority, last otherwise) the chain is the priority members latest first then the others in order, and every lookup form is the specification over that order; a guard `if (sys, prefix) in self.systems: return` is translated (chain_add_guard) and refuted (second archive under the same label dropped, priority re-add ignored). RawFileSystem.walk_folder: how the listed name is computed is translated (raw_walk_relmode); relpath of the joined file name lists stored names (c19_raw_walk_lists_stored_names), relpath of the directory joined with the file name lists root files as "./x" (refuted, also inside a chain). Walk of chains: c19_chain_walk_from_member_interface proves the composition from what the chain needs from a member (lists_sound / lists_complete); folding backends and the directory backend (on folders exact for it - premise shown necessary) satisfy it, so c19_chain_walk_with_directory_members covers chains that contain RawFileSystem; c19_chain_walk_any_spelling / _any_member extend it to prefixes and folders spelt with redundant separators and "." segments in either slash (spells; c19_spellings_one_normal_form). c19_case_duplicate_winner_needs_order: no reader of a container that is the same for both insertion orders serves "the file stored last" - why the known finding cannot be repaired inside VPKFileSystem. '
+         'Round 4 - c19_property: for every configuration (three backend records, VPK content expressions and reader, the directory backend\'s operations and listed-name shape, add_sys guard and branch actions, _file_exists mode, de-duplication mode / key / relative-name mode) that passes the named recognisers, the three sentences of the property hold (backends_agree, walks_exact, chains_honour_priority); today\'s generated configuration passes (obligation property_hypotheses_hold_for_the_generated_configuration, instance theorem today_c19_property). add_sys: c19_chain_history_order / _mounts_all / _spec - after ANY sequence of add_sys calls (method always inserts, first for priority, last otherwise) the chain is the priority members latest first then the others in order, and every lookup form is the specification over that order; a guard `if (sys, prefix) in self.systems: return` is translated (chain_add_guard) and refuted (second archive under the same label dropped, priority re-add ignored). RawFileSystem.walk_folder: how the listed name is computed is translated (raw_walk_relmode); relpath of the joined file name lists stored names (c19_raw_walk_lists_stored_names), relpath of the directory joined with the file name lists root files as "./x" (refuted, also inside a chain). Walk of chains: c19_chain_walk_from_member_interface proves the composition from what the chain needs from a member (lists_sound / lists_complete); folding backends and the directory backend (on folders exact for it - premise shown necessary) satisfy it, so c19_chain_walk_with_directory_members covers chains that contain RawFileSystem; c19_chain_walk_any_spelling / _any_member / _any_member_any_spelling extend it to prefixes and folders spelt with redundant separators and "." segments in either slash, for folding and directory members (spells; c19_spellings_one_normal_form). c19_case_duplicate_winner_needs_order: no reader of a container that is the same for both insertion orders serves "the file stored last" - why the known finding cannot be repaired inside VPKFileSystem. '
          'The generated model is compared with the real Virtual/Zip/VPK/Raw backends (lookups in all spellings incl. open_str, VPKs written in 7 data placements, walks of normalised and un-normalised folders) and with chains ([], in, open_bin, open_str, walk_folder, walk_folder_repeat); a reference oracle written from the property checks every public form on the four real backends and on chains of up to 4 members in all orderings, file contents for 5 VPK placement classes with sizes around the preload limits (1024, 65535), plus non-ASCII case folding for the in-memory and zip backends.',
     note='Trusted: Coq kernel + vm_compute, translate/c19_walk.py (its canonicalisation rewrites are meant to be equivalences of Python programs; on every run the rewritten filesys.py is compiled, executed and compared with the real classes on every lookup form, walks and chains - obligations translate:canonical-form-runs / -is-equivalent), zipfile, the VPK writer of vpk.py (where the bytes are put; the reader is translated; VPK.fileinfos only through a shape check), which numbered archive file is opened (C13), the OS directory semantics (RawFileSystem: exact names via os.path.isfile/open/os.walk after abspath; RootEscapeError belongs to C18). Model restrictions: ASCII case folding only in the model (non-ASCII casefold is searched on the in-memory and zip backends; VPK names are ASCII); stored names are clean relative "/" paths; ".." segments are modelled (full posixpath.normpath) and compared by correspondence but the general noise theorem covers only empty and "." segments; the walk/composition theorems cover prefixes and folders in any spelling of an empty or clean path without ".." (redundant separators, "." segments, either slash; ".." in a prefix or folder: correspondence and oracle), directory members need a cleanly spelt folder that is exact for them - the chain lookup theorem has no premise on prefixes; absolute paths are outside the statement; reading a slice of the wrong home is modelled as returning nothing (such readers are never recognised as whole). Which of two stored names differing only in case wins depends on container order (c19_lookup_order_matters_for_case_duplicates); VPK regroups files, see known finding case-duplicate-winner-vpk-differs. Observations (not violations): RawFileSystem.open_bin of a directory raises IsADirectoryError where the others raise FileNotFoundError; File.path of a lookup differs per backend.',
 )
